@@ -5,18 +5,23 @@ import Pulsar.Proofs.Encode
 namespace Pulsar
 
 /-- `generator.KeySize` is the length of the emitted key bytes. -/
-theorem C04_keySize_eq (num wt : Nat) : keySize num wt = (keyBytes num wt).length := sorry
+theorem C04_keySize_eq (num wt : Nat) : keySize num wt = (keyBytes num wt).length :=
+  keySize_eq_length num wt
 
 /-- For every option combination (deterministic or any map iteration order), proto.Marshal succeeds
     (no panic, no error) and proto.Size equals the number of bytes produced. -/
 theorem C04_size_eq_len (S : Schema) (hS : S.WF = true) (fuel i : Nat) (v : Val) (o : MOpts)
     (hperm : ∀ es, (o.perm es).Perm es) (hi : i < S.msgs.length) (hv : msgOK S false fuel i v = true) :
-    ∃ bs, implMarshal S o fuel i v = .ok bs ∧ implSize S o fuel i v = bs.length := sorry
+    ∃ bs, implMarshal S o fuel i v = .ok bs ∧ implSize S o fuel i v = bs.length :=
+  let ⟨h1, h2, _, _⟩ := marshal_ok hS o (ordOf_perm o hperm) fuel i v hi hv
+  ⟨_, h1, h2⟩
 
 /-- … and equals the reference implementation's size (the length of the reference encoding). -/
 theorem C04_size_eq_reference (S : Schema) (hS : S.WF = true) (fuel i : Nat) (v : Val) (o : MOpts)
     (hperm : ∀ es, (o.perm es).Perm es) (hi : i < S.msgs.length) (hv : msgOK S false fuel i v = true) :
-    implSize S o fuel i v = (specEncode S fuel i v).length := sorry
+    implSize S o fuel i v = (specEncode S fuel i v).length :=
+  let ⟨_, h2, h3, _⟩ := marshal_ok hS o (ordOf_perm o hperm) fuel i v hi hv
+  h2.trans h3
 
 /-- The back-filled buffer is filled exactly: the write index ends at 0 (no zero padding in front,
     no index panic), at every level. -/
@@ -24,11 +29,43 @@ theorem C04_index_reaches_zero (S : Schema) (hS : S.WF = true) (fuel i : Nat) (v
     (hperm : ∀ es, (o.perm es).Perm es) (hi : i < S.msgs.length) (hv : msgOK S false (fuel+1) i v = true) :
     ∃ b, (BackBuf.mk (implSize S o (fuel+1) i v) []).writeAll
             (implWriteSeq o (implMarshalClosure S o fuel) ((S.msg i).fields.zip v.slots) v.unknown) = .ok b
-         ∧ b.i = 0 := sorry
+         ∧ b.i = 0 :=
+  ⟨_, writeSeq_ok hS o (ordOf_perm o hperm) fuel i v hi hv, rfl⟩
 
 /-- MarshalAppend returns the prefix unchanged followed by exactly the encoding. -/
 theorem C04_append (S : Schema) (hS : S.WF = true) (fuel i : Nat) (v : Val) (o : MOpts) (pre : Bytes)
     (hperm : ∀ es, (o.perm es).Perm es) (hi : i < S.msgs.length) (hv : msgOK S false fuel i v = true) :
-    ∃ bs, implMarshal S o fuel i v = .ok bs ∧ implMarshalAppend S o fuel i pre v = .ok (pre ++ bs) := sorry
+    ∃ bs, implMarshal S o fuel i v = .ok bs ∧ implMarshalAppend S o fuel i pre v = .ok (pre ++ bs) := by
+  obtain ⟨h1, _⟩ := marshal_ok hS o (ordOf_perm o hperm) fuel i v hi hv
+  exact ⟨_, h1, by simp [implMarshalAppend, h1]⟩
+
+/-! ### axioms -/
+#print axioms C04_keySize_eq
+#print axioms C04_size_eq_len
+#print axioms C04_size_eq_reference
+#print axioms C04_index_reaches_zero
+#print axioms C04_append
+
+/-! ### non-vacuity: the hypotheses are satisfiable on a schema with every shape (singular, packed and
+    unpacked repeated, two maps — one with message values —, a oneof, a nested message, unknown bytes),
+    under a non-deterministic option set whose map iteration order is "reversed". -/
+section NonVacuity
+open Example
+
+example : exS.WF = true ∧ (0 < exS.msgs.length) ∧ msgOK exS false 2 0 exV = true :=
+  ⟨exS_wf, by decide, exV_ok⟩
+
+example : ∃ bs, implMarshal exS ⟨false, List.reverse⟩ 2 0 exV = .ok bs ∧
+    implSize exS ⟨false, List.reverse⟩ 2 0 exV = bs.length :=
+  C04_size_eq_len exS exS_wf 2 0 exV ⟨false, List.reverse⟩ List.reverse_perm (by decide) exV_ok
+
+example : implSize exS ⟨false, List.reverse⟩ 2 0 exV = (specEncode exS 2 0 exV).length :=
+  C04_size_eq_reference exS exS_wf 2 0 exV ⟨false, List.reverse⟩ List.reverse_perm (by decide) exV_ok
+
+example (pre : Bytes) : ∃ bs, implMarshal exS ⟨true, id⟩ 2 0 exV = .ok bs ∧
+    implMarshalAppend exS ⟨true, id⟩ 2 0 pre exV = .ok (pre ++ bs) :=
+  C04_append exS exS_wf 2 0 exV ⟨true, id⟩ pre (fun _ => List.Perm.refl _) (by decide) exV_ok
+
+end NonVacuity
 
 end Pulsar
